@@ -1074,7 +1074,10 @@ class AWSBatchExecutor(Executor):
             self._scheduler.reject_job(None, error)
 
         self.log("Shutting down executor...", level=logging.DEBUG)
-        self.stop()
+        # Only wind down our own monitoring. Debug jobs may still be pending in the
+        # DockerExecutor, which has its own monitor thread that must keep polling them.
+        self.arrayer.stop()
+        self.is_running = False
 
     def _can_override_failed(self, job: Mapping[str, Any]) -> tuple[bool, str]:
         """
